@@ -178,6 +178,66 @@ impl C07 {
         }
         h.out.count("directed_scenarios_completed");
     }
+
+    /// grants around an expiry: drained then topped up without a new expiry; expired then re-granted with amount 0
+    fn directed_expiry(&self, h: &mut Hist) {
+        use cosmwasm_std::{coin, BankMsg};
+        let pl = crate::cw20w::pool();
+        let (admin, sub, to) = (pl.actors[0].clone(), pl.actors[1].clone(), pl.actors[2].clone());
+        let mut p = Proxy::new(&mut h.rng, Kind::Subkeys);
+        if !p.instantiate(vec![admin.clone()], true).is_ok() {
+            return;
+        }
+        let mut pre = p.snap();
+        let send = |amt: u128, d: &str| -> CosmosMsg { BankMsg::Send { to_address: to.clone(), amount: vec![coin(amt, d)] }.into() };
+        let by_time = h.idx % 2 == 1;
+        let exp = if by_time { crate::cw20w::Exp::T(p.w.block.time.nanos() + 60_000_000_000) } else { crate::cw20w::Exp::H(p.w.block.height + 10) };
+        let later = if by_time { crate::cw20w::Exp::T(p.w.block.time.nanos() + 600_000_000_000) } else { crate::cw20w::Exp::H(p.w.block.height + 100) };
+        let drained = h.idx < 6;
+        let first: Vec<(String, Op)> = if drained {
+            vec![
+                (admin.clone(), Op::Inc { spender: sub.clone(), coin: ("uatom".into(), 10), exp: Some(exp) }),
+                (sub.clone(), Op::Execute { msgs: vec![send(4, "uatom"), send(6, "uatom")] }), // exactly everything
+                (admin.clone(), Op::Inc { spender: sub.clone(), coin: ("uatom".into(), 7), exp: None }), // keeps the expiry
+                (sub.clone(), Op::Execute { msgs: vec![send(1, "uatom")] }),
+            ]
+        } else {
+            vec![
+                (admin.clone(), Op::Inc { spender: sub.clone(), coin: ("uatom".into(), 10), exp: Some(exp) }),
+                (sub.clone(), Op::Execute { msgs: vec![send(3, "uatom")] }),
+            ]
+        };
+        for (s, o) in first {
+            if !self.step(h, &mut p, &mut pre, &s, &o) {
+                return;
+            }
+        }
+        // to the expiry exactly, then beyond it
+        if by_time {
+            p.w.advance(5, 60);
+        } else {
+            p.w.advance(10, 50);
+        }
+        pre = p.snap();
+        let second: Vec<(String, Op)> = if drained {
+            vec![(sub.clone(), Op::Execute { msgs: vec![send(1, "uatom")] }), (sub.clone(), Op::Execute { msgs: vec![send(6, "uatom")] })]
+        } else {
+            vec![
+                (sub.clone(), Op::Execute { msgs: vec![send(1, "uatom")] }),
+                // nothing is granted, only a new expiry: the lapsed remainder must not come back
+                (admin.clone(), Op::Inc { spender: sub.clone(), coin: ("uatom".into(), 0), exp: Some(later) }),
+                (sub.clone(), Op::Execute { msgs: vec![send(7, "uatom")] }),
+                (sub.clone(), Op::Execute { msgs: vec![send(1, "uatom")] }),
+            ]
+        };
+        for (s, o) in second {
+            if !self.step(h, &mut p, &mut pre, &s, &o) {
+                return;
+            }
+        }
+        h.out.count("directed_scenarios_completed");
+        h.out.count("directed_expiry_scenarios_completed");
+    }
 }
 
 impl Monitor for C07 {
@@ -209,6 +269,7 @@ impl Monitor for C07 {
             "msgkind_any_refused",
             "msgkind_distribution_other_refused",
             "directed_scenarios_completed",
+            "directed_expiry_scenarios_completed",
             "migrations_run",
         ]
     }
@@ -225,6 +286,10 @@ impl Monitor for C07 {
         reset_shadow();
         if h.idx < 4 {
             self.directed(h);
+            return;
+        }
+        if h.idx < 8 {
+            self.directed_expiry(h);
             return;
         }
         let kind = if h.idx % 2 == 0 { Kind::Whitelist } else { Kind::Subkeys };
